@@ -66,7 +66,10 @@ TBegin(e) ==
 (* quiescence in between; notified consumers may run between any two of them          *)
 TBurst(e) ==
   /\ phase = "settle" /\ e.a.op = "burst" /\ bi \in 1..Len(e.a.acts)
-  /\ External(e.a.acts[bi], e.rs[bi])
+  /\ IF e.a.acts[bi].op = "pop"       \* a Pop inside the burst (issued where it cannot block): it returns at once
+     THEN /\ PopCall(e.a.c, e.a.acts[bi].any)
+          /\ cst'[e.a.c] = "idle" /\ e.rs[bi] = cres'[e.a.c]
+     ELSE External(e.a.acts[bi], e.rs[bi])
   /\ bi' = bi + 1
   /\ UNCHANGED <<l, phase, rets, pend, prets>>
 
